@@ -246,7 +246,23 @@ impl C07Conc {
                 };
                 out.fail(
                     format!("C07:no-response:{}:{}{}", fam, kind, if q.drop_all { ":upstream-silent" } else { "" }),
-                    format!("{}: no response within {:?}; upstream saw {} transmissions", desc, wait, seen.len()),
+                    format!(
+                        "{}: no response within {:?}; upstream saw {} transmissions ({} answered); server panics: {:?}; server log tail: {}",
+                        desc,
+                        wait,
+                        seen.len(),
+                        seen.iter().filter(|s| s.answered).count(),
+                        server.panics(),
+                        {
+                            let t = server.stderr_tail();
+                            let n = t.len().saturating_sub(700);
+                            let mut n = n;
+                            while !t.is_char_boundary(n) {
+                                n += 1;
+                            }
+                            t[n..].replace('\n', " | ")
+                        }
+                    ),
                 );
                 return out;
             }
